@@ -3,8 +3,14 @@ use crate::rng::Rng;
 use std::fmt::Write as _;
 
 pub mod c01;
+pub mod c05;
+pub mod c06;
+pub mod c13;
+pub mod c14;
+pub mod c18;
 pub mod common;
 pub mod profiles;
+pub mod stream;
 
 pub fn main(args: &[String]) {
     let mut profile = "C01".to_string();
